@@ -306,6 +306,8 @@ func vrtWireXML(v interface{}) string {
 	if err != nil {
 		panic(vrtStop{"cannot marshal harness message: " + err.Error()})
 	}
+	// bound: documents built by the harnesses are at most 1 MiB (larger payloads are C14's subject)
+	vrtAssume(vrtLenBound(string(b), 1<<20))
 	return string(b)
 }
 
